@@ -1,8 +1,9 @@
 (** extraction of the C01 model: specifications (Z) and the as-is word-level models *)
 Require Import FastZ.
 From Dashu Require Import Base.Prelude Base.Words Int.RingSpec Int.RingAdd Int.RingMul Int.RingOps
-  Int.RingToomW Int.DivWordModel Int.DivWordInst Int.RingMulW Int.RingOpsW Int.RingScratch Int.RingPowW Int.RingPrim.
-From DashuGen Require Import SignTables Params MulMemory.
+  Int.RingToomW Int.DivWordModel Int.DivWordInst Int.RingMulW Int.RingOpsW Int.RingScratch Int.RingPowW Int.RingPrim
+  Int.WordPrims Int.WordKernelSpec Int.WordKernelRun Int.RingOpsW4.
+From DashuGen Require Import SignTables Params MulMemory WordKernelsGen.
 Extraction "model.ml"
   signed sign_of value to_words
   ubig_add_spec ubig_sub_spec ubig_mul_spec ibig_add_spec ibig_sub_spec ibig_mul_spec
@@ -20,4 +21,5 @@ Extraction "model.ml"
   repr_mul_w repr_sqr_w ibig_mul_asis_w ubig_cubic_asis_w ibig_cubic_asis_w
   kernel_need kernel_alloc mul_need sqr_need mul_memory_words_exact sqr_memory_words
   repr_pow_w ubig_pow_w ibig_pow_w
-  ubig_prim ibig_prim ibig_from_unsigned ibig_from_signed.
+  ubig_prim ibig_prim ibig_from_unsigned ibig_from_signed
+  word_kernel_spec word_kernel_gen word_kernel_hand signed_mul_chunk_gen repr_mul_w4 shl_in_place_gen.
